@@ -2884,14 +2884,204 @@ theorem cloneOK : ∀ f, CloneOK f
         exact ⟨_, _, rfl, this, ⟨y ++ [_], by rw [hy, List.append_assoc]⟩⟩
 
 
-/-! ## extend (target = a root variable) -/
+theorem writeLoc_frame {σ σ' : State} {l : Loc} {v : V} (hw : Var.writeLoc σ l v = .ok σ') :
+    ∀ id, parentOf l ≠ some id → getB σ'.heap id = getB σ.heap id := by
+  intro id hne
+  cases l with
+  | slot k =>
+    simp only [Var.writeLoc] at hw
+    split at hw
+    · cases hw; rfl
+    · cases hw
+  | item P i =>
+    have hP : id ≠ P := by intro e; exact hne (by simp [parentOf, e])
+    simp only [Var.writeLoc] at hw
+    cases hb : getB σ.heap P with
+    | error e => simp [hb] at hw
+    | ok b =>
+      simp only [hb] at hw
+      split at hw
+      · cases hw
+        simp only [setB]; rw [getB_set_ne _ hP]
+      · cases hw
 
-theorem Inv.extendLoop {k sid : Nat} : ∀ (n : Nat) (σ : State) (T : List V) (i : Nat), Inv σ T → V.obj sid ∈ T →
-    k < σ.slots.length →
-    (∃ e, Var.extendLoop true sid n σ (.slot k) i = .error e ∧ (e = .sharedGrowth ∨ e = .badarg ∨ e = .cyclic ∨ e = .fuel)) ∨
-    ∃ σ', Var.extendLoop true sid n σ (.slot k) i = .ok σ' ∧ Inv σ' T ∧ σ'.slots.length = σ.slots.length
+
+/-! ## what a release leaves untouched -/
+
+theorem Edge.freeB {h : Heap} {c x y : Nat} (e : Edge (freeB h c) x y) : Edge h x y :=
+  Edge.of_sub (SubItems.freeB c) e
+
+/-- destroying values never changes a block that none of them can reach -/
+theorem release_frame : ∀ (fuel : Nat) (h h' : Heap) (wl : List V) (id : Nat), release fuel h wl = .ok h' →
+    (∀ v ∈ wl, ∀ c, handleOf v = some c → ¬ Reach h c id) → h'[id]? = h[id]?
+  | 0, _, _, _, _, hr, _ => by simp [release] at hr
+  | f + 1, h, h', [], id, hr, _ => by simp only [release, Except.ok.injEq] at hr; rw [hr]
+  | f + 1, h, h', v :: rest, id, hr, hno => by
+    simp only [release] at hr
+    cases hh : handleOf v with
+    | none =>
+      simp only [hh] at hr
+      exact release_frame f h h' rest id hr (fun w hw => hno w (by simp [hw]))
+    | some c =>
+      simp only [hh] at hr
+      cases hb : getB h c with
+      | error e => simp [hb] at hr
+      | ok b =>
+        simp only [hb] at hr
+        have hcid : c ≠ id := fun e => hno v (by simp) c hh (e ▸ Reach.refl c)
+        by_cases h0 : b.rc = 0
+        · simp [h0] at hr
+        · simp only [h0, if_false] at hr
+          by_cases h1 : b.rc = 1
+          · simp only [h1, if_true] at hr
+            have := release_frame f (freeB h c) h' (b.items.map (·.2) ++ rest) id hr (by
+              intro w hw c' hc' r
+              have r' : Reach h c' id := Reach.mono (fun _ _ e => Edge.freeB e) r
+              rcases List.mem_append.mp hw with hw1 | hw1
+              · exact hno v (by simp) c hh (Reach.step ⟨b, hb, w, hw1, hc'⟩ r')
+              · exact hno w (by simp [hw1]) c' hc' r')
+            rw [this, Var.freeB, List.getElem?_set_ne hcid]
+          · simp only [h1, if_false] at hr
+            have := release_frame f (setB h c { b with rc := b.rc - 1 }) h' rest id hr (by
+              intro w hw c' hc' r
+              have r' : Reach h c' id := (Reach.of_same (SameItems.setRc hb _)).mp r
+              exact hno w (by simp [hw]) c' hc' r')
+            rw [this, Var.setB, List.getElem?_set_ne hcid]
+
+/-- a path in a heap with one more edge `B → c` is a path of the old heap, or passes through `B` -/
+theorem reach_addEdge_split {h h' : Heap} {B c : Nat} (he : ∀ x y, Edge h' x y → Edge h x y ∨ (x = B ∧ y = c))
+    {x z : Nat} (r : Reach h' x z) : Reach h x z ∨ Reach h x B := by
+  induction r with
+  | refl x => exact Or.inl (Reach.refl x)
+  | @step x y z e _ ih =>
+    rcases he x y e with e0 | ⟨rfl, _⟩
+    · rcases ih with h1 | h1
+      · exact Or.inl (Reach.step e0 h1)
+      · exact Or.inr (Reach.step e0 h1)
+    · exact Or.inr (Reach.refl x)
+
+
+/-- **ancestors survive an assignment**: after `target = src` with the target stored in block `B`, every other block
+from which `B` is reachable still exists with the same elements (only blocks reachable from the old content of
+the target can be released, and none of them reaches an ancestor of `B`, the heap being acyclic) -/
+theorem Inv.assignV_ancestors {σ σ' : State} {T : List V} {B p : Nat} {src : V} (inv : Inv σ T)
+    (hl : ValidLoc σ (.item B p)) (hs : LiveV σ.heap src)
+    (hacyc : ∀ c, handleOf src = some c → ¬ Reach σ.heap c B)
+    (ha : Var.assignV σ (.item B p) src = .ok σ') :
+    σ'.slots = σ.slots ∧
+    ∀ P bP, getB σ.heap P = .ok bP → P ≠ B → Reach σ.heap P B → ∃ bP', getB σ'.heap P = .ok bP' ∧ bP'.items = bP.items := by
+  obtain ⟨old, hr, hheld⟩ := readLoc_valid hl T
+  clear hheld
+  obtain ⟨bB, hbB, hp⟩ := hl
+  have hslots : ∀ {τ τ' : State} {v : V}, Var.writeLoc τ (.item B p) v = .ok τ' → τ'.slots = τ.slots := by
+    intro τ τ' v hw
+    simp only [Var.writeLoc] at hw
+    cases hb : getB τ.heap B with
+    | error e => simp [hb] at hw
+    | ok b =>
+      simp only [hb] at hw
+      split at hw
+      · cases hw; rfl
+      · cases hw
+  have hparent : ∀ P, P ≠ B → parentOf (Loc.item B p) ≠ some P := by
+    intro P hP e; simp only [parentOf, Option.some.injEq] at e; exact hP e.symm
+  unfold Var.assignV at ha
+  rw [hr] at ha
+  dsimp only at ha
+  split at ha
+  · -- STRING := STRING in place: only block B changes
+    refine ⟨hslots ha, fun P bP hbP hPB _ => ⟨bP, ?_, rfl⟩⟩
+    rw [writeLoc_frame ha P (hparent P hPB)]; exact hbP
+  · obtain ⟨h1, hc, inv1, same⟩ := inv.copyLive hs
+    simp only [hc] at ha
+    cases hw : Var.writeLoc { σ with heap := h1 } (.item B p) src with
+    | error e => simp [hw] at ha
+    | ok σ2 =>
+      simp only [hw] at ha
+      have hs2 : σ2.slots = σ.slots := hslots (τ := { σ with heap := h1 }) hw
+      -- block P after the copy and the write
+      have hP2 : ∀ P bP, getB σ.heap P = .ok bP → P ≠ B → ∃ bP', getB σ2.heap P = .ok bP' ∧ bP'.items = bP.items := by
+        intro P bP hbP hPB
+        obtain ⟨b1, hb1, e1, _, _⟩ := same.get hbP
+        exact ⟨b1, by rw [writeLoc_frame hw P (hparent P hPB)]; exact hb1, e1⟩
+      by_cases hpod : isPod old = true
+      · simp only [hpod, if_true] at ha
+        cases ha
+        exact ⟨hs2, fun P bP hbP hPB _ => hP2 P bP hbP hPB⟩
+      · simp only [hpod] at ha
+        cases hd : Var.drop σ2.heap [old] with
+        | error e => simp [hd] at ha
+        | ok h3 =>
+          simp only [hd] at ha
+          cases ha
+          refine ⟨hs2, fun P bP hbP hPB hreach => ?_⟩
+          obtain ⟨b2, hb2, e2⟩ := hP2 P bP hbP hPB
+          -- the old content cannot reach P
+          obtain ⟨rank, hrk⟩ := inv.ranked
+          have hedgeOld : ∀ c, handleOf old = some c → Edge σ.heap B c := by
+            intro c hc
+            refine ⟨bB, hbB, old, ?_, hc⟩
+            simp only [readLoc, hbB] at hr
+            cases hi' : bB.items[p]? with
+            | none => simp [hi'] at hr
+            | some kv =>
+              simp only [hi', Except.ok.injEq] at hr
+              rw [← hr]; exact List.mem_map_of_mem (List.mem_of_getElem? hi')
+          have hb1B : ∃ b1, getB h1 B = .ok b1 ∧ b1.items = bB.items := by
+            obtain ⟨b1, hb1, e1, _, _⟩ := same.get hbB
+            exact ⟨b1, hb1, e1⟩
+          obtain ⟨b1B, hb1B, e1B⟩ := hb1B
+          have hedges2 : ∀ x y, Edge σ2.heap x y → Edge h1 x y ∨ (x = B ∧ handleOf src = some y) := by
+            intro x y e
+            simp only [Var.writeLoc, hb1B] at hw
+            split at hw
+            · cases hw
+              rcases Edge.setB hb1B e with ⟨_, e0⟩ | ⟨rfl, w, hw', hwy⟩
+              · exact Or.inl e0
+              · simp only [bvals, map_snd_setValAt] at hw'
+                rcases List.mem_or_eq_of_mem_set hw' with h2 | rfl
+                · exact Or.inl ⟨b1B, hb1B, w, h2, hwy⟩
+                · exact Or.inr ⟨rfl, hwy⟩
+            · cases hw
+          have hno : ∀ v ∈ [old], ∀ c, handleOf v = some c → ¬ Reach σ2.heap c P := by
+            intro v hv c hc r
+            simp only [List.mem_singleton] at hv; subst hv
+            have hlt := hrk B c (hedgeOld c hc)
+            have hle := Reach.rank_le hrk hreach
+            have key : Reach σ.heap c P ∨ Reach σ.heap c B := by
+              cases hsrc : handleOf src with
+              | none =>
+                left
+                apply (Reach.of_same same).mp
+                exact Reach.mono (fun x y e => by
+                  rcases hedges2 x y e with e0 | ⟨_, h0⟩
+                  · exact e0
+                  · rw [hsrc] at h0; cases h0) r
+              | some cs =>
+                have := reach_addEdge_split (h := h1) (B := B) (c := cs) (fun x y e => by
+                  rcases hedges2 x y e with e0 | ⟨h0, h0'⟩
+                  · exact Or.inl e0
+                  · rw [hsrc] at h0'; exact Or.inr ⟨h0, (Option.some.inj h0').symm⟩) r
+                rcases this with h0 | h0
+                · exact Or.inl ((Reach.of_same same).mp h0)
+                · exact Or.inr ((Reach.of_same same).mp h0)
+            rcases key with h0 | h0
+            · have := Reach.rank_le hrk h0; omega
+            · have := Reach.rank_le hrk h0; omega
+          have hfr := release_frame _ σ2.heap h3 [old] P hd hno
+          refine ⟨b2, ?_, e2⟩
+          rw [getB_eq] at hb2 ⊢
+          rw [hfr]; exact hb2
+
+
+/-! ## extend -/
+
+theorem Inv.extendLoop {l : Loc} {sid : Nat} : ∀ (n : Nat) (σ : State) (T : List V) (i : Nat), Inv σ T → V.obj sid ∈ T →
+    ValidLoc σ l →
+    (∃ e, Var.extendLoop true sid n σ l i = .error e ∧ (e = .sharedGrowth ∨ e = .badarg ∨ e = .cyclic ∨ e = .fuel)) ∨
+    ∃ σ', Var.extendLoop true sid n σ l i = .ok σ' ∧ Inv σ' T ∧ σ'.slots.length = σ.slots.length
   | 0, σ, T, i, inv, _, _ => Or.inr ⟨σ, rfl, inv, rfl⟩
-  | n + 1, σ, T, i, inv, hsid, hk => by
+  | n + 1, σ, T, i, inv, hsid, hl => by
     simp only [Var.extendLoop]
     obtain ⟨sb, hsb, _⟩ := inv.wf.live (V.obj sid) (Or.inl (by simp [hsid])) sid rfl
     simp only [hsb]
@@ -2902,11 +3092,10 @@ theorem Inv.extendLoop {k sid : Nat} : ∀ (n : Nat) (σ : State) (T : List V) (
       simp only []
       by_cases hx : x = V.none
       · simp only [hx, if_true]
-        exact Inv.extendLoop n σ T (i + 1) inv hsid hk
+        exact Inv.extendLoop n σ T (i + 1) inv hsid hl
       · simp only [hx, if_false]
         have hxlive : LiveV σ.heap x :=
           inv.wf.liveV (Or.inr (mem_hvals_of_getB hsb (List.mem_map_of_mem (f := (·.2)) (List.mem_of_getElem? hi))))
-        have hl : ValidLoc σ (.slot k) := hk
         obtain ⟨v, hr, hheld⟩ := readLoc_valid hl T
         simp only [hr]
         cases v with
@@ -2923,12 +3112,11 @@ theorem Inv.extendLoop {k sid : Nat} : ∀ (n : Nat) (σ : State) (T : List V) (
               have hself : handleOf x ≠ some id := fun h0 => hnoreach id h0 (Reach.refl id)
               obtain ⟨b, hb, hkind⟩ := inv.wf.live _ hheld id rfl
               simp only [isObjV] at hkind
-              rcases inv.indexKey (k := key) hl hr hb hkind with h1 | ⟨σ1, id', p, h1, inv1, hs1, _, _, hv1, hkeep, hfresh, hedges⟩
+              rcases inv.indexKey (k := key) hl hr hb hkind with h1 | ⟨σ1, id', p, h1, inv1, hs1, hl1, hr1, hv1, hkeep, hfresh, hedges⟩
               · simp only [h1]; exact Or.inl ⟨_, rfl, Or.inl rfl⟩
               · simp only [h1]
-                obtain ⟨σ2, ha, inv2, hs2⟩ := Inv.assignV (src := x) inv1 hv1 (hkeep x hxlive hself) (by
-                  intro P c hP hc r
-                  simp only [parentOf, Option.some.injEq] at hP; subst hP
+                have hacyc1 : ∀ c, handleOf x = some c → ¬ Reach σ1.heap c id' := by
+                  intro c hc r
                   have r0 := Reach.rename _ hedges r
                   have hcl : c < σ.heap.length := by
                     obtain ⟨bs, hbs, _⟩ := hxlive c hc
@@ -2939,9 +3127,32 @@ theorem Inv.extendLoop {k sid : Nat} : ∀ (n : Nat) (σ : State) (T : List V) (
                     · have : c ≠ id' := by omega
                       simp [this]
                   simp only [hcn, if_true] at r0
-                  exact hnoreach c hc r0)
+                  exact hnoreach c hc r0
+                have hxlive1 := hkeep x hxlive hself
+                obtain ⟨σ2, ha, inv2, hs2⟩ := Inv.assignV (src := x) inv1 hv1 hxlive1 (by
+                  intro P c hP hc
+                  simp only [parentOf, Option.some.injEq] at hP; subst hP
+                  exact hacyc1 c hc)
                 simp only [ha]
-                rcases Inv.extendLoop n σ2 T (i + 1) inv2 hsid (by rw [hs2, hs1]; exact hk) with ⟨e, h2, he⟩ | ⟨σ', h2, inv', hs'⟩
+                -- the Var that holds the object outlives the assignment
+                have hl2 : ValidLoc σ2 l := by
+                  obtain ⟨hslots, hanc⟩ := inv1.assignV_ancestors hv1 hxlive1 hacyc1 ha
+                  cases l with
+                  | slot k => show k < σ2.slots.length; rw [hslots]; exact hl1
+                  | item P j =>
+                    obtain ⟨bP, hbP, hj⟩ := hl1
+                    have hPid : P ≠ id' := ValidLoc.parent_ne inv1 hr1 rfl |> fun hne e => hne (by simp [parentOf, e])
+                    have hedge : Edge σ1.heap P id' := by
+                      refine ⟨bP, hbP, V.obj id', ?_, rfl⟩
+                      simp only [readLoc, hbP] at hr1
+                      cases hj' : bP.items[j]? with
+                      | none => simp [hj'] at hr1
+                      | some kv =>
+                        simp only [hj', Except.ok.injEq] at hr1
+                        rw [← hr1]; exact List.mem_map_of_mem (List.mem_of_getElem? hj')
+                    obtain ⟨bP', hbP', e⟩ := hanc P bP hbP hPid (Reach.single hedge)
+                    exact ⟨bP', hbP', by rw [e]; exact hj⟩
+                rcases Inv.extendLoop n σ2 T (i + 1) inv2 hsid hl2 with ⟨e, h2, he⟩ | ⟨σ', h2, inv', hs'⟩
                 · exact Or.inl ⟨e, h2, he⟩
                 · exact Or.inr ⟨σ', h2, inv', by rw [hs', hs2, hs1]⟩
           · rw [hrb]; exact Or.inl ⟨_, rfl, Or.inr (Or.inr (Or.inr rfl))⟩
@@ -2976,11 +3187,10 @@ theorem Inv.toObjIfNone {σ : State} {T : List V} {l : Loc} (inv : Inv σ T) (hl
   | arr _ => exact ⟨σ, rfl, inv, rfl, hl, fun _ h => h⟩
   | obj _ => exact ⟨σ, rfl, inv, rfl, hl, fun _ h => h⟩
 
-theorem Inv.extendObj {σ0 : State} {T : List V} {k : Nat} {src : V} (inv0 : Inv σ0 T) (hk : k < σ0.slots.length)
+theorem Inv.extendObj {σ0 : State} {T : List V} {l : Loc} {src : V} (inv0 : Inv σ0 T) (hl0 : ValidLoc σ0 l)
     (hsrc0 : LiveV σ0.heap src) :
-    (∃ e, Var.extendObj true σ0 (.slot k) src = .error e ∧ (e = .sharedGrowth ∨ e = .badarg ∨ e = .cyclic ∨ e = .fuel)) ∨
-    ∃ σ', Var.extendObj true σ0 (.slot k) src = .ok σ' ∧ Inv σ' T ∧ σ'.slots.length = σ0.slots.length := by
-  have hl0 : ValidLoc σ0 (.slot k) := hk
+    (∃ e, Var.extendObj true σ0 l src = .error e ∧ (e = .sharedGrowth ∨ e = .badarg ∨ e = .cyclic ∨ e = .fuel)) ∨
+    ∃ σ', Var.extendObj true σ0 l src = .ok σ' ∧ Inv σ' T ∧ σ'.slots.length = σ0.slots.length := by
   obtain ⟨v0, hr0, _⟩ := readLoc_valid hl0 T
   unfold Var.extendObj
   rw [hr0]
@@ -2992,7 +3202,8 @@ theorem Inv.extendObj {σ0 : State} {T : List V} {k : Nat} {src : V} (inv0 : Inv
     obtain ⟨sb, hsb, _⟩ := inv1.wf.live (V.obj sid) (Or.inl (by simp)) sid rfl
     simp only [] at hsb
     simp only [hsb]
-    rcases Inv.extendLoop (k := k) (sid := sid) sb.items.length { σ0 with heap := h1 } (V.obj sid :: T) 0 inv1 (by simp) hk with
+    have hl1 : ValidLoc { σ0 with heap := h1 } l := (SameDom.of_same same).validLoc hl0
+    rcases Inv.extendLoop (l := l) (sid := sid) sb.items.length { σ0 with heap := h1 } (V.obj sid :: T) 0 inv1 (by simp) hl1 with
       ⟨e, h2, he⟩ | ⟨σ', h2, inv', hs'⟩
     · simp only [h2]; exact Or.inl ⟨e, rfl, he⟩
     · simp only [h2]
@@ -3003,20 +3214,17 @@ theorem Inv.extendObj {σ0 : State} {T : List V} {k : Nat} {src : V} (inv0 : Inv
     refine ⟨σ0, ?_, inv0, rfl⟩
     cases v0 <;> cases src <;> first | rfl | (exfalso; exact hobj ⟨⟨_, rfl⟩, ⟨_, rfl⟩⟩)
 
-/-- `extend` on a root variable -/
-theorem Inv.extendV {σ : State} {T : List V} {k : Nat} {src : V} (inv : Inv σ T) (hk : k < σ.slots.length)
+/-- `extend` -/
+theorem Inv.extendV {σ : State} {T : List V} {l : Loc} {src : V} (inv : Inv σ T) (hl : ValidLoc σ l)
     (hsrc : LiveV σ.heap src) :
-    (∃ e, Var.extendV true σ (.slot k) src = .error e ∧ (e = .sharedGrowth ∨ e = .badarg ∨ e = .cyclic ∨ e = .fuel)) ∨
-    ∃ σ', Var.extendV true σ (.slot k) src = .ok σ' ∧ Inv σ' T ∧ σ'.slots.length = σ.slots.length := by
-  obtain ⟨σ0, h0, inv0, hs0, _, hkeep⟩ := inv.toObjIfNone (l := .slot k) hk
+    (∃ e, Var.extendV true σ l src = .error e ∧ (e = .sharedGrowth ∨ e = .badarg ∨ e = .cyclic ∨ e = .fuel)) ∨
+    ∃ σ', Var.extendV true σ l src = .ok σ' ∧ Inv σ' T ∧ σ'.slots.length = σ.slots.length := by
+  obtain ⟨σ0, h0, inv0, hs0, hl0, hkeep⟩ := inv.toObjIfNone hl
   unfold Var.extendV
   rw [h0]
-  rcases inv0.extendObj (k := k) (src := src) (by rw [hs0]; exact hk) (hkeep src hsrc) with ⟨e, h1, he⟩ | ⟨σ', h1, inv', hs'⟩
+  rcases inv0.extendObj (src := src) hl0 (hkeep src hsrc) with ⟨e, h1, he⟩ | ⟨σ', h1, inv', hs'⟩
   · exact Or.inl ⟨e, h1, he⟩
   · exact Or.inr ⟨σ', h1, inv', by rw [hs', hs0]⟩
-
-
-
 
 /-! ## statements -/
 
@@ -3249,9 +3457,8 @@ theorem Inv.extGuard {σ : State} {t : Loc} {src v : V} (inv : Inv σ []) (hs : 
   · right
     cases v <;> cases src <;> first | rfl | (exfalso; exact hobj ⟨_, rfl⟩)
 
-theorem Inv.opExtend {σ : State} {k : Nat} (q : Path) (inv : Inv σ []) (hk : k < σ.slots.length) :
-    BodyOK σ (Var.opExtend true σ (.slot k) q) := by
-  have hl : ValidLoc σ (.slot k) := hk
+theorem Inv.opExtend {σ : State} {t : Loc} (q : Path) (inv : Inv σ []) (hl : ValidLoc σ t) :
+    BodyOK σ (Var.opExtend true σ t q) := by
   unfold Var.opExtend
   rcases inv.cget q with ⟨e, h1, he⟩ | ⟨src, h1, hsrc⟩
   · left; exact ⟨e, by rw [h1], by subst he; exact Or.inr (Or.inr (Or.inl rfl))⟩
@@ -3259,10 +3466,10 @@ theorem Inv.opExtend {σ : State} {k : Nat} (q : Path) (inv : Inv σ []) (hk : k
     have hlive := Held.live inv hsrc
     obtain ⟨v, hr, hheld⟩ := readLoc_valid hl []
     simp only [hr]
-    rcases inv.extGuard (t := .slot k) hlive (inv.wf.liveV hheld) with ⟨e, h2, he⟩ | h2
+    rcases inv.extGuard (t := t) hlive (inv.wf.liveV hheld) with ⟨e, h2, he⟩ | h2
     · left; exact ⟨e, by simp only [h2], he⟩
     · simp only [h2]
-      rcases inv.extendV hk hlive with ⟨e, h3, he⟩ | ⟨σ', h3, inv', hs⟩
+      rcases inv.extendV hl hlive with ⟨e, h3, he⟩ | ⟨σ', h3, inv', hs⟩
       · left; refine ⟨e, h3, ?_⟩
         rcases he with he | he | he | he <;> subst he
         · exact Or.inl rfl
@@ -3293,8 +3500,8 @@ theorem BodyOK.of_ok {σ : State} {r : Except Err State}
 theorem resolveMut_nil (σ : State) (l : Loc) : Var.resolveMut true σ l [] = (σ, .ok l) := rfl
 
 /-- the body of a statement whose target is resolved -/
-theorem Inv.opBody {σ : State} {t : Loc} (op : Op) (inv : Inv σ []) (hl : ValidLoc σ t)
-    (hext : ∀ p q, op = .extend p q → ∃ k, t = .slot k) : BodyOK σ (Var.opBody true σ t op) := by
+theorem Inv.opBody {σ : State} {t : Loc} (op : Op) (inv : Inv σ []) (hl : ValidLoc σ t) :
+    BodyOK σ (Var.opBody true σ t op) := by
   have sg : Refusal .sharedGrowth := Or.inl rfl
   have ba : Refusal .badarg := Or.inr (Or.inr (Or.inr (Or.inl rfl)))
   cases op with
@@ -3330,9 +3537,7 @@ theorem Inv.opBody {σ : State} {t : Loc} (op : Op) (inv : Inv σ []) (hl : Vali
     · exact Or.inr (inv.removeAtV hl)
   | removeKey p k => exact Or.inr (inv.removeKeyV hl)
   | clear p => exact Or.inr (inv.clearV hl)
-  | extend p q =>
-    obtain ⟨k, rfl⟩ := hext p q rfl
-    exact inv.opExtend q hl
+  | extend p q => exact inv.opExtend q hl
   | clone k q => exact Or.inl ⟨_, rfl, ba⟩
   | copy k q => exact Or.inl ⟨_, rfl, ba⟩
   | drop k => exact Or.inl ⟨_, rfl, ba⟩
@@ -3414,7 +3619,7 @@ def Safe : Except Err Unit → Prop
 
 /-- **one statement**: from a state satisfying the invariant, a statement never touches released or out-of-range
 storage (it is executed, or refused by a guard), and the invariant holds afterwards -/
-theorem Inv.applyOp {σ : State} (op : Op) (inv : Inv σ []) (hop : RootExtend op) :
+theorem Inv.applyOp {σ : State} (op : Op) (inv : Inv σ []) :
     Inv (Var.applyOp true σ op).1 [] ∧ (Var.applyOp true σ op).1.slots.length = σ.slots.length ∧
     Safe (Var.applyOp true σ op).2 := by
   unfold Var.applyOp
@@ -3436,16 +3641,7 @@ theorem Inv.applyOp {σ : State} (op : Op) (inv : Inv σ []) (hop : RootExtend o
         · exact Or.inl rfl
         · exact Or.inr (Or.inr (Or.inr (Or.inl rfl)))
       · simp only []
-        have hext : ∀ p' q, op = .extend p' q → ∃ k, t = .slot k := by
-          intro p' q he
-          subst he
-          simp only [targetOf, Option.some.injEq] at htgt
-          subst htgt
-          simp only [RootExtend] at hop
-          rw [hop, resolveMut_nil] at h1
-          cases h1
-          exact ⟨_, rfl⟩
-        rcases inv1.opBody op hl hext with ⟨e, h2, he⟩ | ⟨σ2, h2, inv2, hs2⟩
+        rcases inv1.opBody op hl with ⟨e, h2, he⟩ | ⟨σ2, h2, inv2, hs2⟩
         · rw [h2]; exact ⟨inv1, hs1, he⟩
         · rw [h2]; exact ⟨inv2, by rw [hs2, hs1], trivial⟩
     · simp only [hroot, if_false]
@@ -3457,16 +3653,16 @@ def results (guard : Bool) : State → List Op → List (Except Err Unit)
   | _, [] => []
   | σ, op :: rest => (Var.applyOp guard σ op).2 :: results guard (Var.applyOp guard σ op).1 rest
 
-theorem Inv.run {σ : State} (inv : Inv σ []) : ∀ (ops : List Op) (σ0 : State), σ0 = σ → (∀ op ∈ ops, RootExtend op) →
+theorem Inv.run {σ : State} (inv : Inv σ []) : ∀ (ops : List Op) (σ0 : State), σ0 = σ →
     Inv (run true σ0 ops) [] ∧ (run true σ0 ops).slots.length = σ0.slots.length ∧ ∀ r ∈ results true σ0 ops, Safe r := by
   intro ops
   induction ops generalizing σ with
-  | nil => intro σ0 h _; subst h; exact ⟨inv, rfl, by simp [results]⟩
+  | nil => intro σ0 h; subst h; exact ⟨inv, rfl, by simp [results]⟩
   | cons op rest ih =>
-    intro σ0 h hops
+    intro σ0 h
     subst h
-    obtain ⟨inv1, hs1, hsafe⟩ := inv.applyOp op (hops op (by simp))
-    obtain ⟨inv2, hs2, hall⟩ := ih inv1 _ rfl (fun o ho => hops o (by simp [ho]))
+    obtain ⟨inv1, hs1, hsafe⟩ := inv.applyOp op
+    obtain ⟨inv2, hs2, hall⟩ := ih inv1 _ rfl
     refine ⟨inv2, by rw [Var.run, hs2, hs1], ?_⟩
     intro r hr
     simp only [results, List.mem_cons] at hr
@@ -3648,27 +3844,6 @@ theorem content_sub {h h' : Heap} {R : List V} (sub : SubItems h h') (wf : WF h'
 
 
 /-! ## assign_spec -/
-
-theorem writeLoc_frame {σ σ' : State} {l : Loc} {v : V} (hw : Var.writeLoc σ l v = .ok σ') :
-    ∀ id, parentOf l ≠ some id → getB σ'.heap id = getB σ.heap id := by
-  intro id hne
-  cases l with
-  | slot k =>
-    simp only [Var.writeLoc] at hw
-    split at hw
-    · cases hw; rfl
-    · cases hw
-  | item P i =>
-    have hP : id ≠ P := by intro e; exact hne (by simp [parentOf, e])
-    simp only [Var.writeLoc] at hw
-    cases hb : getB σ.heap P with
-    | error e => simp [hb] at hw
-    | ok b =>
-      simp only [hb] at hw
-      split at hw
-      · cases hw
-        simp only [setB]; rw [getB_set_ne _ hP]
-      · cases hw
 
 theorem readLoc_held {σ : State} {l : Loc} {v : V} (hr : readLoc σ l = .ok v) : v ∈ σ.slots ∨ v ∈ hvals σ.heap := by
   cases l with
@@ -4018,6 +4193,60 @@ theorem Dy.normal_unique {a b : Dy} (ha : a.Normal) (hb : b.Normal) (hv : a.ValE
     have h2 : m2 * 2 ^ (k + 1) * 2 ^ e2 = m1 * 2 ^ e2 := by rw [hv]; ac_rfl
     have h3 := Int.eq_of_mul_eq_mul_right (Int.ne_of_gt (pow2_pos e2)) h2
     exact odd_mul_pow2 ha' m2 h3.symm
+
+
+/-! ## no leak -/
+
+def rankMax (rank : Nat → Nat) : Nat → Nat
+  | 0 => 0
+  | n + 1 => max (rank n) (rankMax rank n)
+
+theorem rankMax_ge (rank : Nat → Nat) : ∀ (n id : Nat), id < n → rank id ≤ rankMax rank n
+  | 0, _, h => by omega
+  | n + 1, id, h => by
+    simp only [rankMax]
+    by_cases he : id = n
+    · subst he; omega
+    · have := rankMax_ge rank n id (by omega); omega
+
+/-- when no root variable (and no temporary) holds a handle, no block is live: everything was released -/
+theorem Inv.no_leak {σ : State} (inv : Inv σ []) (hroots : ∀ v ∈ σ.slots, handleOf v = none) :
+    ∀ id b, getB σ.heap id ≠ .ok b := by
+  obtain ⟨rank, hrk⟩ := inv.ranked
+  -- every live block has a live parent of larger rank
+  have parent : ∀ id b, getB σ.heap id = .ok b → ∃ p bp, getB σ.heap p = .ok bp ∧ rank id < rank p := by
+    intro id b hb
+    have hc := inv.wf.counted id b hb
+    have hp := inv.wf.pos id b hb
+    have hz : occ id (σ.slots ++ []) = 0 := by
+      rw [occ_eq_zero_iff]
+      intro v hv hid
+      simp only [List.append_nil] at hv
+      rw [hroots v hv] at hid; cases hid
+    have hpos : 0 < occ id (hvals σ.heap) := by omega
+    obtain ⟨v, hv, hid⟩ := (occ_pos_iff _ _).mp hpos
+    simp only [hvals, List.mem_flatMap] at hv
+    obtain ⟨ob, hob, hvo⟩ := hv
+    cases ob with
+    | none => simp [ovals] at hvo
+    | some bp =>
+      obtain ⟨p, hp1, hp2⟩ := List.getElem_of_mem hob
+      have hgp : getB σ.heap p = .ok bp := getB_eq.mpr (by rw [List.getElem?_eq_getElem hp1, hp2])
+      exact ⟨p, bp, hgp, hrk p id ⟨bp, hgp, v, hvo, hid⟩⟩
+  -- hence live blocks of arbitrarily large rank
+  have climb : ∀ k id b, getB σ.heap id = .ok b → ∃ p bp, getB σ.heap p = .ok bp ∧ rank id + k ≤ rank p := by
+    intro k
+    induction k with
+    | zero => intro id b hb; exact ⟨id, b, hb, by omega⟩
+    | succ k ih =>
+      intro id b hb
+      obtain ⟨p, bp, hp, hlt⟩ := parent id b hb
+      obtain ⟨p', bp', hp', hle⟩ := ih p bp hp
+      exact ⟨p', bp', hp', by omega⟩
+  intro id b hb
+  obtain ⟨p, bp, hp, hle⟩ := climb (rankMax rank σ.heap.length + 1) id b hb
+  have := rankMax_ge rank σ.heap.length p (getB_lt hp)
+  omega
 
 
 end AslModel.Var
